@@ -309,6 +309,21 @@ def check_cli(case, ctx):
                         "reference master gives %s" % (cmd, pw, testnet, got, want))
 
 
+# ------------------------------------------------------------------------------------ first use from several threads
+def _cold_build(it):
+    from vlib.cold import enc
+    kind, ent, pw, seed = it
+    if kind == "seed":
+        m = R39.encode(ent)
+        return (["bip39", "bip39_seed_from_mnemonic", [m, pw]], enc(R39.seed(m, pw)), "bip39_seed_from_mnemonic(%r, %r)" % (m[:20], pw))
+    try:
+        want = R.master(seed).xprv(R.XPRV)
+    except R.Invalid:
+        want = None
+    return (["bip32", "PrvKeyNode.master_key", [{"hex": seed.hex()}], [["extended_private_key", []]]], want,
+            "master_key(%s).extended_private_key()" % seed.hex()[:16])
+
+
 def clauses():
     return [
         Clause("text", check_text,
@@ -346,4 +361,9 @@ def clauses():
                "sentence it reports, from_mnemonic(w.mnemonic, w.password) reproduces it",
                gen=gen_new, nontrivial=lambda c: True, key=lambda c: [c["words"], c["pw"], c["testnet"]],
                n={"quick": 200, "thorough": 5000}, shards={"quick": 8, "thorough": 16}),
+        __import__("vlib.cold", fromlist=["x"]).cold_clause(
+            "C03", st.tuples(st.sampled_from(["seed", "master"]),
+                             st.sampled_from([16, 24, 32]).flatmap(lambda n_: st.binary(min_size=n_, max_size=n_)),
+                             st.sampled_from(["", "pw", "\u00e9\u212b"]), st.binary(min_size=16, max_size=64)),
+            _cold_build, "mnemonic -> seed, seed -> master key", n_quick=32, n_thorough=800),
     ]
